@@ -490,21 +490,15 @@ def run(node, args, ctx, prefix=()):
         total = 0.0
         seen = []
         init = x
-        valid = True
         for i in range(node["n"]):
             if bool(flags[i]):
                 lp, x = run(inner, [x], ctx, prefix + (i,))
                 total += lp
-            # masked-off step: no choices, no score, value unchanged (documented
-            # for masked_iterate_final; for masked_iterate the library leaves the
-            # returned entries after a masked step unspecified -> `valid` marks it)
-            else:
-                valid = False
-            seen.append((x, valid))
+            # masked-off step: no choices, no score, iterated value unchanged
+            seen.append(x)
         if k == "masked_iterate_final":
             return total, x
-        stacked = prepend(init, stack_typed([s[0] for s in seen], xt))
-        return total, MaskedIterRet(stacked, [True] + [s[1] for s in seen])
+        return total, prepend(init, stack_typed(seen, xt))
     if k == "switch":
         idx = int(args[0])
         nb = len(node["branches"])
